@@ -8,18 +8,18 @@ looked up in the source again, from the line cache or from the file).
 
 from __future__ import annotations
 
-WORDS = ["a", "bc d", "", "  e", "x = 1", "# no", "\tt", "z)", "(", "'q'", '"', "é", "日本", "\\", "{{", "}}"]
+WORDS = ["", "", "a", "bc d", "", "  e", "x = 1", "# no", "\tt", "z)", "(", "'q'", '"', "é", "日本", "\\", "{{", "}}"]
 FWORDS = ["{x}", "{x!r}", "{x:>4}", "{x=}", "{ y = }", "{f(1,\n 2)}", "{x:{w}}"]
 
 # {S} = the multi-line token
 ERR_TEMPLATES = [
     "x = {S} = 1", "{S} = 1", "[a, {S} b]", "f(a, {S} c)", "{S} += 1", "del {S}", "for {S} in y: pass", "with a as {S}: pass", "({S}) = 3", "({S}, 2) = 4", "f({S} = 1)", "lambda: {S} = 1",
-    "x = {S} if a else b = 1", "import {S}", "x = [{S}, 1", "x = ({S}", "x = {S} {S} = 2", "def f({S}): pass", "x = {S}.1", "{S} := 2", "(b, {S}) += 1", "x = {S} y", "print {S}", "a = b = {S} = c",
+    "f(a, \\\n\\\n b, {S}) = 1", "x = [1, \\\n   \\\n 2 {S}]", "x = {S} if a else b = 1", "import {S}", "x = [{S}, 1", "x = ({S}", "x = {S} {S} = 2", "def f({S}): pass", "x = {S}.1", "{S} := 2", "(b, {S}) += 1", "x = {S} y", "print {S}", "a = b = {S} = c",
 ]
 OK_TEMPLATES = ["x = {S}", "f({S}, 2)", "x = [1, {S},\n  3]", "x = {{'k': {S}}}", "return_ = {S} + {S}", "x = {S}.join(a)", "assert {S}, {S}", "x = {S} if a else {S}", "v = f'''{{{S}=}}'''", "v = f'''{{ {S} = !r:>9}}'''", "v = f\"\"\"a{{{S}=}}b\"\"\"", "w = f'{{ {S} = }}'"]
 LATER_ERRORS = ["foo(a, b for b in\n    c, d)", "x = (1,\n  2", "y = [1,\n 2)", "f(a=1,\n  b)", "z = 1 +", "if a\n  pass", "  q = 1", "k = 'abc", "m = (a,\n  b c)", "del f(),\n  g", "class A\n  pass", "for x in (1,\n 2) pass"]
 DEBUG_FIELDS = [
-    "{x=}", "{x = }", "{x=!r}", "{x=!r\n}", "{x=:>10\n}", "{x=!r:\n}", "{\nx=}", "{x\n=}", "{x=\n}", "{x =\n !r}", "{x = !r:>{w}\n}", "{f(a,\n b)=}", "{a +\n b = !s}", "{x=:{w}\n.{p}}", "{ x\n =\n }", "{'k'=}", "{x=:\n\n}", "{x = :a\nb}", "{x=}{y=\n}", "{é=}", "{é = !r\n}",
+    "{a + \\\n\\\n b =}", "{x \\\n  \\\n=!r}", "{x=}", "{x = }", "{x=!r}", "{x=!r\n}", "{x=:>10\n}", "{x=!r:\n}", "{\nx=}", "{x\n=}", "{x=\n}", "{x =\n !r}", "{x = !r:>{w}\n}", "{f(a,\n b)=}", "{a +\n b = !s}", "{x=:{w}\n.{p}}", "{ x\n =\n }", "{'k'=}", "{x=:\n\n}", "{x = :a\nb}", "{x=}{y=\n}", "{é=}", "{é = !r\n}",
 ]
 
 
